@@ -1313,6 +1313,12 @@ impl Union for AdjacencyMap {
                                             union_sets_unsafe(&a.1, &b.1);
 
                                         local.push((a.0, union_set));
+
+                                        // Both entries are consumed here:
+                                        // release the sets they own.
+                                        drop(read(lhs_ptr.add(i)));
+                                        drop(read(rhs_ptr.add(j)));
+
                                         i += 1;
                                         j += 1;
                                     }
@@ -1335,6 +1341,16 @@ impl Union for AdjacencyMap {
                 merged_entries.extend(h.join().unwrap());
             }
         });
+
+        // Every entry has been moved out or dropped by exactly one worker:
+        // free the two buffers without dropping their elements again.
+        let mut lhs_vec = ManuallyDrop::into_inner(lhs_vec);
+        let mut rhs_vec = ManuallyDrop::into_inner(rhs_vec);
+
+        unsafe {
+            lhs_vec.set_len(0);
+            rhs_vec.set_len(0);
+        }
 
         merged_entries.sort_unstable_by_key(|&(k, _)| k);
 
